@@ -27,6 +27,7 @@ func c06(c *Ctx) {
 	c06R4(c)
 	c06R5(c)
 	c06R6(c)
+	walSkipRule(c, "R7")
 }
 
 // first call to a named callee
@@ -399,7 +400,7 @@ func c06R6(c *Ctx) {
 			for _, st := range g.FieldStores("gemmill/blockchain.BlockStore", "height") {
 				nw++
 				name := core.Short(core.FuncName(fn))
-				c.R.Ob(rule, "store-height-writer:"+name, allowed[name], c.Pos(st), core.FuncName(fn),
+				c.R.Ob(rule, "store-height-writer:"+name, allowed[name] || c.helperOnlyCalledFrom(fn, allowed), c.Pos(st), core.FuncName(fn),
 					"BlockStore.height is rewritten in memory outside the store: RecoverFromCrash (run later, by ConnectApp) then sees a height that is not the persisted one — after a crash between the application's commit and State.Save it finds the application ahead of the store and the node cannot start")
 			}
 		}
